@@ -32,7 +32,7 @@ TECH = {
     "C09": "deterministic simulation: spy peers capture each starter's consensus under the run's RNG schedule, hash seed and insertion orders per cell; reference scorer as oracle; seeded search, minimised replay files",
     "C11": "deterministic simulation: the scheduler decides every pivot; each execution is refined against an executable reference KwikSort fed with the recorded pivots; seeded search over schedules plus depth-first sweep of the whole pivot-choice tree (thorough)",
     "C14": "deterministic simulation with fault injection: cplex environment (absent / broken import / stand-in) decides whether 'never refused' can hold; nested configurations with scheduled random draws; predicate/outcome agreement oracle; seeded search, minimised replay files",
-    "C15": "deterministic simulation with fault injection: histories on shared objects vs. a fresh-copy world with replayed RNG traces, solver-peer failures (PulpSolverError / not solved) at the k-th solve; snapshot invariants after every operation; seeded search, minimised replay files",
+    "C15": "deterministic simulation with fault injection: histories on shared objects vs. a fresh-copy world with replayed RNG traces, solver-peer failures at the k-th solve of the history (CBC: PulpSolverError / not solved; stand-in CPLEX: CplexSolverError / no solution); snapshot invariants after every operation; seeded search, minimised replay files",
     "C16": "deterministic simulation: histories of mutators incl. refused ones (crash points inside the history), constructors via simulated filesystem and scheduled generators; reference dataset model recomputed after every operation; seeded search, minimised replay files",
     "C17": "deterministic simulation: hash seed per cell, recorded insertion orders, colliding int pools, derivation routes (projection, unification, simulated file round trip), compare-edit-compare histories; multiset-of-rankings model as oracle",
     "C18": "deterministic simulation with fault injection: simulated filesystem with crash / ENOSPC / lost write / flipped character / duplicated or lost line inside the write, deterministic step meter for bounded liveness; round-trip model equality and parser totality as oracles",
